@@ -102,7 +102,7 @@ def run(ctx):
     # 4. shares validated at use
     ag = call_sites(P, lambda c, t: c.get("name") == "as_group_element" and c.get("trait") == "Share")
     cg = call_sites(P, lambda c, t: c.get("name") == "combine_shares_group")
-    ctx.floor("E7.shares", "Share::as_group_element call sites", len(ag), 8)
+    ctx.floor("E7.shares", "Share::as_group_element call sites (detector is live)", len(ag), 3)
     ctx.floor("E7.shares", "combine_shares_group call sites", len(cg), 3)
     allowed_raw = lambda fn: (fn.impl_trait in ("Share", "ConditionallySelectable", "Default", "TryFrom", "From", "LowerHex", "UpperHex", "Display", "Debug", "Clone", "PartialEq", "Hash", "Ord", "PartialOrd", "Zeroize", "Serialize", "Deserialize", "Eq") and (fn.impl_self_adt or "").startswith("InnerPointShare")) or (fn.impl_trait == "From" and "InnerPointShare" in (fn.impl_trait_ref or "")) or fn.from_expansion
     raw = []
